@@ -86,6 +86,13 @@ macro_rules! impl_range_exclusive_match_arms {
           (Value::[<$ty:camel>](from), Value::[<$ty:camel>](to))  => {
             let from_val = *from.borrow();
             let to_val = *to.borrow();
+            // an end before the start is an empty range (the subtraction below would wrap for unsigned kinds)
+            if to_val < from_val {
+              return Err(MechError::new(
+                EmptyRangeError{},
+                None
+              ).with_compiler_loc());
+            }
             let diff = to_val - from_val;
             if diff < $ty::zero() {
               return Err(MechError::new(
